@@ -51,10 +51,11 @@ func init() {
 		Count: func(tier string) int { return 4 }, Eval: c01Backpressure})
 	RegisterCheck("C01", func(c *Ctx) {
 		c.Level = "exploration"
-		c.Rule = "DFS over all schedules within the preemption bound of concurrent CallTool/GetPrompt/ReadResource on real clients and servers (every transport/mode); an execution is distinct by (per-call outcome, handler invocation order, wire response order); plus complete enumeration of id classes x transports and of the back-pressure sizes"
+		c.Rule = "DFS over all schedules within the preemption bound of concurrent CallTool/GetPrompt/ReadResource on real clients and servers (every transport/mode); an execution is distinct by (per-call outcome, handler invocation order, wire response order); plus complete enumeration of id classes x transports, of the back-pressure sizes and of answer sizes across the 4 KiB / 64 KiB / 1 MiB boundaries x operation kinds x transports"
 		c.Assume = append(c.Assume, "net/http and OS pipes replaced by memnet", "handshake prelude runs under the default schedule", "sleep-set partial-order reduction (DESIGN 2.8): a class of executions that differ only in the order of independent transitions is explored once; data-race freedom of plain memory is assumed for the reduction (C20 checks it)", "quick: 2 callers P<=2, mixed kinds and two clients P<=1; thorough: P<=4 / 3 callers / 2 calls per caller P<=3")
 		c.Enumerate("c01/ids")
 		c.Enumerate("c01/backpressure")
+		c.Enumerate("c01/sizes")
 		for _, mode := range []string{"sj", "ss", "sl", "sd", "ls", "io"} {
 			c.DFSBoth(fmt.Sprintf("c01/%s/1c-2x1", mode), explore.Bounds{Preempt: c.Pick(2, 4), Dev: c.Pick(1, 2)}, map[bool]int{true: 0, false: 1}[mode == "ls" || mode == "io"])
 			c.DFS(fmt.Sprintf("c01/%s/mixed", mode), explore.Bounds{Preempt: c.Pick(1, 3), Dev: 1, POR: true})
@@ -602,4 +603,161 @@ func c01Backpressure(tier string, i int) CaseResult {
 	cr.Violations = o.Violations
 	cr.Broken = o.Broken
 	return cr
+}
+
+// ---- answer sizes --------------------------------------------------------------------------------
+//
+// "The outcome is the server's answer to that very request" for answers of every size: the frame
+// that carries the answer crosses the usual buffer boundaries of line- and event-oriented readers
+// (4 KiB, 64 KiB, 1 MiB). One client, two successive calls per operation with different nonces.
+
+var c01Sizes = []int{100, 4095, 4096, 4097, 65535, 65536, 65537, 131072, 1<<20 + 1}
+var c01SizeOps = []string{"CallTool", "ReadResource", "GetPrompt", "ListTools"}
+
+type c01SizeCase struct {
+	Mode string
+	Op   string
+	N    int
+}
+
+func c01SizeCases() []c01SizeCase {
+	var out []c01SizeCase
+	for _, m := range AllModes {
+		for _, op := range c01SizeOps {
+			for _, n := range c01Sizes {
+				out = append(out, c01SizeCase{m, op, n})
+			}
+		}
+	}
+	return out
+}
+
+func c01Payload(nonce string, n int) string {
+	s := "<" + nonce + ">"
+	return s + strings.Repeat("p", n-len(s)-1) + "$"
+}
+
+func c01SizeEval(tier string, i int) CaseResult {
+	cs := c01SizeCases()[i]
+	cr := CaseResult{Desc: fmt.Sprintf("mode=%s op=%s answer payload of %d bytes", cs.Mode, cs.Op, cs.N), Nontrivial: true}
+	var viol []explore.Violation
+	obs := &hx.Log{}
+	k := func(kind string) string {
+		cls := "small"
+		switch {
+		case cs.N > 1<<20:
+			cls = ">1MiB"
+		case cs.N > 1<<16:
+			cls = ">64KiB"
+		case cs.N >= 1<<16-1:
+			cls = "64KiB"
+		case cs.N >= 4095:
+			cls = "4KiB"
+		}
+		return fmt.Sprintf("%s:%s:%s:%s", kind, cs.Mode, cs.Op, cls)
+	}
+	res := vsched.Run(vsched.Config{}, func() {
+		r := NewRig(cs.Mode)
+		calls := &hx.Log{}
+		r.RegisterTool(mcp.NewTool("big", mcp.WithDescription(c01Payload("tool-description", cs.N)), mcp.WithString("nonce")), func(ctx context.Context, req *mcp.CallToolRequest) (*mcp.CallToolResult, error) {
+			n, _ := req.Params.Arguments["nonce"].(string)
+			calls.Add("tool %s", n)
+			return mcp.NewTextResult(c01Payload(n, cs.N)), nil
+		})
+		r.RegisterPrompt(&mcp.Prompt{Name: "big", Arguments: []mcp.PromptArgument{{Name: "nonce"}}}, func(ctx context.Context, req *mcp.GetPromptRequest) (*mcp.GetPromptResult, error) {
+			calls.Add("prompt %s", req.Params.Arguments["nonce"])
+			return &mcp.GetPromptResult{Description: c01Payload(req.Params.Arguments["nonce"], cs.N), Messages: []mcp.PromptMessage{}}, nil
+		})
+		for _, u := range []string{"res://a", "res://b"} {
+			u := u
+			r.RegisterResource(&mcp.Resource{Name: "r" + u, URI: u}, func(ctx context.Context, req *mcp.ReadResourceRequest) (mcp.ResourceContents, error) {
+				calls.Add("resource %s", req.Params.URI)
+				return mcp.TextResourceContents{URI: u, Text: c01Payload(u, cs.N)}, nil
+			})
+		}
+		r.Start()
+		cl, err := r.Connect()
+		if err != nil {
+			viol = append(viol, V("setup-handshake-fails", "setting the scenario up with well-behaved peers fails: %v", err))
+			return
+		}
+		ctx := context.Background()
+		done := &hx.Flag{}
+		got := &hx.Log{}
+		vsched.Go("caller", func() {
+			defer done.Set()
+			for _, nonce := range []string{"res://a", "res://b"} {
+				want := c01Payload(nonce, cs.N)
+				var have string
+				var e error
+				switch cs.Op {
+				case "CallTool":
+					rq := &mcp.CallToolRequest{}
+					rq.Params.Name = "big"
+					rq.Params.Arguments = map[string]interface{}{"nonce": nonce}
+					var o *mcp.CallToolResult
+					o, e = cl.CallTool(ctx, rq)
+					have = TextOf(o)
+				case "GetPrompt":
+					rq := &mcp.GetPromptRequest{}
+					rq.Params.Name = "big"
+					rq.Params.Arguments = map[string]string{"nonce": nonce}
+					var o *mcp.GetPromptResult
+					o, e = cl.GetPrompt(ctx, rq)
+					if o != nil {
+						have = o.Description
+					}
+				case "ReadResource":
+					rq := &mcp.ReadResourceRequest{}
+					rq.Params.URI = nonce
+					var o *mcp.ReadResourceResult
+					o, e = cl.ReadResource(ctx, rq)
+					if o != nil && len(o.Contents) == 1 {
+						if t, ok := o.Contents[0].(mcp.TextResourceContents); ok {
+							have = t.Text
+						} else if t, ok := o.Contents[0].(*mcp.TextResourceContents); ok {
+							have = t.Text
+						}
+					}
+				case "ListTools":
+					want = c01Payload("tool-description", cs.N)
+					var o *mcp.ListToolsResult
+					o, e = cl.ListTools(ctx, &mcp.ListToolsRequest{})
+					if o != nil && len(o.Tools) == 1 {
+						have = o.Tools[0].Description
+					}
+				}
+				switch {
+				case e != nil:
+					got.Add("%s(%s) with an answer payload of %d bytes failed although the connection stayed up: %s", cs.Op, nonce, cs.N, truncate(e.Error(), 200))
+				case have != want:
+					got.Add("%s(%s) with an answer payload of %d bytes returned %d bytes %q", cs.Op, nonce, cs.N, len(have), truncate(have, 40))
+				}
+			}
+		})
+		vsched.Quiesce()
+		if !done.Get() {
+			viol = append(viol, V(k("size-call-hangs"), "%s never returned; blocked: %v", cr.Desc, vsched.LiveThreads()))
+		}
+		for _, g := range got.Items() {
+			viol = append(viol, V(k("size-wrong-outcome"), "%s", g))
+		}
+		if cs.Op != "ListTools" && done.Get() {
+			if n := len(calls.Items()); n != 2 {
+				viol = append(viol, V(k("size-handler-runs"), "two calls ran the handler %d times: %v", n, calls.Items()))
+			}
+		}
+		obs.Add("%v", len(got.Items()))
+		cl.Close()
+	})
+	o := finishOutcome(res, obs, viol, true)
+	cr.ObsKey = cr.Desc + "|" + o.ObsKey
+	cr.Violations = o.Violations
+	cr.Broken = o.Broken
+	return cr
+}
+
+func init() {
+	RegisterEnum(&Enum{Name: "c01/sizes", Doc: "answers whose frame crosses the 4 KiB, 64 KiB and 1 MiB boundaries, for CallTool, ReadResource, GetPrompt and ListTools on every transport/mode: each of two successive calls returns its own complete answer and runs its handler once",
+		Count: func(string) int { return len(c01SizeCases()) }, Eval: c01SizeEval})
 }
